@@ -133,6 +133,17 @@ def _check_conversions(E, Money, convs, ref, a, eur, usd, tag):
         rh = m.convert(hkd)
         E.check(rh.unit is hkd and E.is_rounding(get_dflt_rounding_mode(), rh.amount / q, m.amount * Fraction(top_rate) / q),
                 'conversion-of-second-pair-uses-top-converter', key='money:convert-hkd-' + tag, info=[ref])
+        # neither currency is the converter's base: the cross rate of the top converter (quotient of its base rates
+        # in normal form: six decimals at the multiple that brings the amount to at least 0.1)
+        mu = Money(a, usd)
+        ru = mu.convert(hkd)
+        cross = Fraction(top_rate) / Fraction(RATES[ref[-1]])
+        k = 0
+        while cross * 10 ** k < Fraction(1, 10):
+            k += 1
+        cross = Fraction(round(cross * 10 ** (k + 6)), 10 ** (k + 6))
+        E.check(ru.unit is hkd and E.is_rounding(get_dflt_rounding_mode(), ru.amount / q, mu.amount * cross / q),
+                'cross-conversion-uses-top-converter', key='money:convert-cross-' + tag, info=[ref])
 
 
 def _apply_money_op(E, Money, convs, ref, op, arg):
